@@ -23,7 +23,8 @@ P cancel <w> | P writefail <w> | P close <c> | P leave <w> | P alloc <next> <use
     -> see handleP
 
 C reset <check 0|1> <client>*                    client = id:name:spell:qtype:scope:route(f|r)
-C arrive <i> | C refuse <i> | C wake <i> | C evict <name> <qtype> <scope>
+C arrive <i> | C join <i> | C refuse <i> | C wake <i> | C evict <name> <qtype> <scope>
+C refresh <i> <scheme> <att> <att> <ev 0|1>     background refresh (optimistic cache) for client i's question
 C resolve <f> <udp|tcp|tcpudp> <att> <att>       att = fail | m:<id>:<q>:<resp>:<rcode>:<tc>:<ans>, q = - | name.spell.qtype
     -> pc=<pc of the client concerned> out=<outcome emitted by this step or -> calls=<n> cache=<entries>
 ```
@@ -170,7 +171,7 @@ def outcomeStr : Ctl.Outcome → String
   | .error e => s!"error:{errStr e}"
 
 def cpcStr : Ctl.Pc → String
-  | .init => "init" | .leading f => s!"leading:{f}" | .waiting _ => "waiting" | .done => "done"
+  | .init => "init" | .missed => "missed" | .leading f => s!"leading:{f}" | .waiting _ => "waiting" | .done => "done"
 
 /-- insertion sort on strings (cache entries are printed in a canonical order) -/
 def sortStrs (l : List String) : List String :=
@@ -201,6 +202,21 @@ def handleC (d : DSt) : List String → DSt × String
     match i.toNat? with
     | some i => let c := Ctl.step d.ccfg d.c (.refuse i); ({ d with c := c }, cOut d.c c i)
     | none => (d, "bad-op")
+  | ["join", i] =>
+    match i.toNat? with
+    | some i => let c := Ctl.step d.ccfg d.c (.join i); ({ d with c := c }, cOut d.c c i)
+    | none => (d, "bad-op")
+  | ["refresh", i, sch, a1, a2, ev] =>
+    -- ev = 1: the harness saw the (still stale) entry dropped by backgroundRefresh's deferred clean-up,
+    -- which is an `evict` of that key in the model
+    match i.toNat?, parseScheme sch, parseAtt a1, parseAtt a2 with
+    | some i, some sch, some a1, some a2 =>
+      let c := Ctl.step d.ccfg d.c (.refresh i sch a1 a2)
+      let c := match ev == "1", c.clients[i]? with
+        | true, some cl => Ctl.step d.ccfg c (.evict cl.key)
+        | _, _ => c
+      ({ d with c := c }, cOut d.c c 1000000)
+    | _, _, _, _ => (d, "bad-op")
   | ["wake", i] =>
     match i.toNat? with
     | some i => let c := Ctl.step d.ccfg d.c (.wake i); ({ d with c := c }, cOut d.c c i)
